@@ -28,8 +28,26 @@ ASSUMPTIONS = ['smpte_offset hours are generated in 0..31 (KF-C09-c is recorded 
                'a load that raises (any exception type) makes no claim']
 
 
-def build_file(fd):
-    tracks = [mido.MidiTrack([M.to_mido(d) for d in tr]) for tr in fd['tracks']]
+def build_file(fd, assemble='plain'):
+    tracks = []
+    for tr in fd['tracks']:
+        msgs = [M.to_mido(d) for d in tr]
+        if assemble == 'plain' or len(msgs) < 2:
+            t = mido.MidiTrack(msgs)
+        else:
+            # the documented MidiTrack conveniences: slicing, +, *, copy(), extend, insert
+            k = len(msgs) // 2
+            a, b = mido.MidiTrack(msgs[:k]), mido.MidiTrack(msgs[k:])
+            t = (a + b)[:]
+            t = (t * 1).copy()
+            last = t.pop()
+            t.extend([last])
+            first = t[0]
+            del t[0]
+            t.insert(0, first)
+            if type(t) is not mido.MidiTrack:
+                raise AssertionError(f'MidiTrack operations returned {type(t).__name__}')
+        tracks.append(t)
     return mido.MidiFile(type=fd['type'], ticks_per_beat=fd['tpb'], tracks=tracks)
 
 
@@ -66,7 +84,7 @@ def compare_tracks(loaded, fd_tracks, what):
 
 def check_roundtrip(fd, via='file'):
     try:
-        mid = build_file(fd)
+        mid = build_file(fd, 'ops' if via == 'trackops' else 'plain')
     except Exception as exc:  # noqa: BLE001
         return [fail('build-raises', f'{exc!r}', exc=exc_sig(exc))]
     out = []
@@ -338,7 +356,7 @@ def hyp_shard(rec, shard):
     block, k, n = shard
     if block == 'roundtrip':
         files = st.fixed_dictionaries({'kind': st.just('roundtrip'), 'file': S.file_dicts(time=BIG),
-                                       'via': st.sampled_from(['file', 'file', 'file', 'filename'])})
+                                       'via': st.sampled_from(['file', 'file', 'trackops', 'filename'])})
         rec.hyp(files, n, label='roundtrip', seed_offset=k)
     elif block == 'refusal':
         rec.hyp(refusal_cases(), n, label='refusal', seed_offset=100 + k)
@@ -356,6 +374,13 @@ def main(ctx):
     ctx.pmap('hyp_shard', [('roundtrip', k, n // w) for k in range(w)] +
              [('refusal', k, n // (2 * w)) for k in range(w)] +
              [('mutants', k, 4 * n // w) for k in range(w)])
+    # volume: many events, many tracks (track count needs both header bytes), long payloads
+    big = [{'type': 'note_on', 'channel': i % 16, 'note': i % 128, 'velocity': 1 + i % 127, 'time': i % 3} for i in range(4000)]
+    big += [{'type': 'lyrics', 'text': 'x' * 70000, 'time': 1}, {'type': 'sysex', 'data': [i % 128 for i in range(20000)], 'time': 2},
+            {'type': 'unknown_meta', 'type_byte': 0x70, 'data': [i % 256 for i in range(17000)], 'time': 3}]
+    ctx.check({'kind': 'roundtrip', 'file': {'type': 1, 'tpb': 480, 'tracks': [big, big[:10]]}}, sample=False)
+    ctx.check({'kind': 'roundtrip', 'file': {'type': 1, 'tpb': 96, 'tracks': [[pm] for pm in big[:300]]}}, sample=False)
+    ctx.check({'kind': 'roundtrip', 'file': {'type': 2, 'tpb': 1, 'tracks': [[] for _ in range(260)]}}, sample=False)
     if ctx.tier == 'thorough':
         from lib.harness import run_fuzz
         seeds = []
